@@ -103,12 +103,72 @@ def do_run(ids, tier="quick", all_checks=False):
     return results
 
 
+HARMLESS = VERIF / "seeded-harmless"
+
+
+def import_harmless(srcdir, k, sid):
+    """validate a behaviour-preserving rewrite (suite passes) and store it as seeded-harmless/<sid>/"""
+    src = Path(srcdir)
+    patch = src / f"refactor_{k}.diff"
+    if not patch.exists():
+        raise SystemExit(f"missing {patch}")
+    wt = scratch(f"imph-{sid}")
+    try:
+        rc, out = sh(f"git apply {patch}", cwd=wt)
+        if rc:
+            print("PATCH DOES NOT APPLY:", out); return False
+        rct, outt = sh(f"{PY} -m pytest -q -p no:cacheprovider --timeout=900 2>&1 | tail -3", cwd=wt, env=dict(os.environ, MPLBACKEND="Agg"), timeout=3600)
+        ok = "381 passed" in outt and "failed" not in outt
+        print(f"{sid}: suite={'ok' if ok else outt.strip()[-120:]} -> {'KEEP' if ok else 'REJECT'}")
+        if not ok:
+            return False
+        dst = HARMLESS / sid
+        dst.mkdir(parents=True, exist_ok=True)
+        shutil.copy(patch, dst / "patch.diff")
+        notes = (src / "notes.md").read_text() if (src / "notes.md").exists() else ""
+        (dst / "meta.json").write_text(json.dumps({"kind": "behaviour-preserving rewrite (no property is broken): every check must stay silent",
+                                                   "origin": f"fresh sub-agent ({srcdir})", "notes": notes,
+                                                   "confirmed": {"test_suite_with_change": outt.strip().splitlines()[-1] if outt.strip() else ""}}, indent=1) + "\n")
+        return True
+    finally:
+        drop(wt)
+
+
+def run_harmless(ids, tier="quick"):
+    man = json.loads((VERIF / "MANIFEST.json").read_text())
+    props = [c["property_id"] for c in man["checks"]]
+    allres = json.loads((HARMLESS / "results.json").read_text()) if (HARMLESS / "results.json").exists() else {}
+    for sid in ids:
+        d = HARMLESS / sid
+        wt = scratch(f"runh-{sid}")
+        try:
+            rc, out = sh(f"git apply {d / 'patch.diff'}", cwd=wt)
+            if rc:
+                print(sid, "patch does not apply"); continue
+            touched = set(l.split()[-1] for l in (d / "patch.diff").read_text().splitlines() if l.startswith("+++ "))
+            alarms = {}
+            for p in props:
+                env = dict(os.environ, CE_REPO=str(wt), CE_EVIDENCE_DIR=f"/tmp/mutwt/evh-{sid}")
+                rc, out = sh(f"./check {p} {tier}", cwd=VERIF, env=env, timeout=7200)
+                if rc != 0:
+                    alarms[p] = next((l for l in out.splitlines() if l.startswith("VIOLATION") or "INFRA" in l), f"rc={rc}")
+            allres[sid] = alarms or "silent (all checks exit 0)"
+            print(sid, json.dumps(allres[sid]))
+            (HARMLESS / "results.json").write_text(json.dumps(allres, indent=1, sort_keys=True) + "\n")
+        finally:
+            drop(wt)
+
+
 if __name__ == "__main__":
     if sys.argv[1] == "import":
         do_import(sys.argv[2], sys.argv[3])
     elif sys.argv[1] == "run":
         ids = sys.argv[2:] or sorted(p.name for p in SEEDED.iterdir() if p.is_dir())
         do_run(ids, tier=os.environ.get("SEEDED_TIER", "quick"))
+    elif sys.argv[1] == "import-harmless":
+        import_harmless(sys.argv[2], sys.argv[3], sys.argv[4])
+    elif sys.argv[1] == "run-harmless":
+        run_harmless(sys.argv[2:] or sorted(p.name for p in HARMLESS.iterdir() if p.is_dir()))
     elif sys.argv[1] == "runall":
         ids = sys.argv[2:] or sorted(p.name for p in SEEDED.iterdir() if p.is_dir())
         do_run(ids, all_checks=True)
